@@ -15,6 +15,10 @@ CHECKS = {
          "Regimes.tla holds the case analysis of the many-variable functions as argument classes (generic, exactly equal, nearly equal at 1e-12..1e-1, an argument equal or close to 1, both in the 1e-4 window around 1, both small, vanishing Kaellen function exactly and at 1e-12..1e-3, zero arguments, physical quark masses over charged-Higgs masses); Defs.tla holds the definitions with their degenerate cases (Fa, Fb from G3, G4 and their derivatives, Iabc with its equal-argument and zero limits, Phi and Phi/lambda^2 from the Davydychev-Tausk function, the Kaellen polynomial, the difference quotients FPZ, FSZ, FCWl with the limit x f' - f, f_CSd, f_CSu of Eqs.(61),(62) and their quotients FCWu, FCWd); Trace_C02.tla decides the definitional comparison (1e-6, Fa / Fb 1e-4, floor 1e-13 M^p), permutation invariance and homogeneity (Iabc, Phi, lambda^2) in exact arithmetic",
          "K10, K19 repaired; atoms from mpmath at 400 bits are trusted; FCWu / FCWd at exactly equal scales are left to the C11 paths; tuples are sampled within each class",
          "TLA+ trace validation (Trace_C02.tla, Defs.tla, Dyadic.tla) over TLC-enumerated argument classes (Regimes.tla)", "DESIGN 5/C02"),
+ "C03": ("exploration",
+         "Trace_C03.tla holds Eqs.(2.11a,b) with the couplings (2.5a,b,o,p) of arXiv:1311.1775 and the flavour-summed one-loop THDM expression of arXiv:1607.06292 (scalar, pseudoscalar, charged Higgs, minus the SM Higgs term) and evaluates them in exact complex / rational arithmetic from the couplings, masses, mixing matrices and Yukawa matrices the public getters report, with loop functions from their closed forms at 400 bits; the library's amu1LChi0, amu1LChipm, calculate_amu_1loop must agree to 1e-8 of the sum of the magnitudes of the terms.  Points per TLC-enumerated class: all sign patterns of mu, M1, M2 x tan(beta) x spectrum x tree / converted Yukawa; THDM all six Yukawa types x basis of origin x lepton-flavour-violating Delta / Pi x tan(beta)",
+         "the diagonalisation itself is decided by C04 on the same kind of points (assume-guarantee); magnitudes sampled; formulas transcribed from the cited equations",
+         "TLA+ trace validation (Trace_C03.tla: formulas in the spec, exact arithmetic in Dyadic.tla) over TLC-enumerated classes", "DESIGN 5/C03"),
  "C04": ("exploration",
          "Trace_C04.tla contains the tree-level mass matrices of the nine sfermion sectors, three sneutrinos, charginos and neutralinos written from the Lagrangian (D-terms from T3 and Q, GUT-normalised g1, SLHA sign of mu) and validates, with exact products, that every reported mass/mixing pair reconstructs them (Z^T diag(m^2) Z, U^T diag(m) V, N^T diag(m) N), that mixing matrices are unitary, masses non-negative and ordered, Goldstones at index 0 with MZ, MW, the tree-level Higgs identities and chargino/neutralino trace/determinant relations hold, a tachyon is reported exactly for a negative eigenvalue of a monitored sector, and exchanging two generations exchanges the spectra",
          "Higgs-sector matrices are not reconstructed (their soft masses are fixed internally by the tadpole equations): identities only; magnitudes sampled; tolerance 1e-11 of the matrix norm",
